@@ -189,6 +189,13 @@ func init() {
 			i.call(fr, 0, a[0], nil)
 			return false
 		},
+		// verifCaptureStdout(f func()) string: runs f and returns what it printed
+		"verifCaptureStdout": func(fr *frame, a []value) value {
+			i := fr.i
+			before := i.stdout.Len()
+			i.call(fr, 0, a[0], nil)
+			return i.stdout.String()[before:]
+		},
 		"verifConcrete": func(fr *frame, a []value) value {
 			// verifConcrete(x int) int: enumerate a symbolic int within [0, MaxEnum]
 			return int(fr.i.concInt(a[0], 0, int64(fr.i.cfg.MaxEnum), "verifConcrete"))
